@@ -87,6 +87,7 @@ fn main() {
                 }
             }
         }
+        Some("c01replay") => c01::replay(&args[2], args.get(3).map(|s| s.as_str())),
         Some("c03replay") => c03::replay(&args[2]),
         Some("scenario") => {
             // replay helper: run one product-mode scenario file and print the key list of every reply
